@@ -161,6 +161,11 @@ func memOracle(c MemCase, o *h.Obs) *h.Fail {
 	o.Class("members:recv:" + c.Recv)
 	o.Class("members:op:" + c.Op)
 	o.NonTrivial = c.Op != "read" || c.Recv != "val"
+	defer func() {
+		if o.Note == "" && o.Key != "" {
+			o.Note = "S seed " + strings.ReplaceAll(o.Key, "\n", "; ")
+		}
+	}()
 
 	fail := func(clause, detail, format string, args ...interface{}) *h.Fail {
 		return h.Failf("C11|members|"+clause+"|"+c.Recv+"|"+detail, format, args...)
@@ -173,7 +178,9 @@ func memOracle(c MemCase, o *h.Obs) *h.Fail {
 		}
 		return got, err, nil
 	}
-	join := func(lines ...string) string { return strings.Join(append(append([]string{}, m.pre...), lines...), "\n") }
+	join := func(lines ...string) string {
+		return strings.Join(append(append([]string{}, m.pre...), lines...), "\n")
+	}
 	head := func(src string) string {
 		var gd []string
 		for i, n := range b.names {
